@@ -17,7 +17,9 @@ TECHNIQUE = "Lean 4 state-machine refinement proof + exact differential run over
 RULE = ("random histories (<= 20 ops) of receive / all_waveforms / waveforms / is_hit / full_waveform / "
         "is_hit_during / make_noise / clear(reset) on Antenna (noiseless and noisy with a patched deterministic "
         "noise class), DipoleAntenna (threshold trigger) and AntennaSystem (lead-in 0, 2.5 dt, 10 dt; halving or "
-        "pass-through front end; inner-antenna queries interleaved); plus real-thermal-noise histories (seeded numpy RNG, "
+        "pass-through, pedestal-subtracting or echo front end; optional system-level trigger; built from an instance or "
+        "via class + setup_antenna; inner-antenna queries interleaved); is_hit_mc_truth; receive of two polarisation "
+        "components in one call; `times` arguments as float array / list / tuple / integer array; plus real-thermal-noise histories (seeded numpy RNG, "
         "Antenna / DipoleAntenna / AntennaSystem, make_noise / full_waveform / receive / all_waveforms / clear on 2-4 "
         "windows lying up to 1000 window lengths apart and revisited, tolerance 1e-9); signal windows overlapping, disjoint (far "
         "away, exercising the skip test), nested, half-sample shifted and with different sample spacings; a "
@@ -111,11 +113,34 @@ def build(cfg):
         return mk(cfg["kind"])
     fe = cfg["fe"]
 
+    sthr = cfg.get("sthr")
+
     class Sys(AntennaSystem):
         lead_in_time = float(cfg["lead"])
 
         def front_end(self, signal):
-            return signal * 0.5 if fe == "H" else signal
+            if fe == "H":
+                return signal * 0.5
+            if fe == "B":        # pedestal subtraction with the first sample of the window it is given
+                v = np.array(signal.values, dtype=float)
+                return Signal(signal.times, v - v[0], signal.value_type)
+            if fe == "E":        # one-sample echo
+                v = np.array(signal.values, dtype=float)
+                return Signal(signal.times, v + 0.5 * np.concatenate(([0.0], v[:-1])), signal.value_type)
+            return signal
+    if sthr is not None:         # a system-level trigger different from the antenna's
+        Sys.trigger = lambda self, signal: bool(max(np.abs(signal.values)) > sthr)
+    if cfg.get("via_class"):     # the other construction path: class + setup_antenna
+        proto = mk(cfg["inner"])
+        if cfg["inner"] == "dip":
+            sysobj = Sys(DipoleAntenna)
+            sysobj.setup_antenna("d", (0, 0, -100), 250e6, 100e6, 300, 50, trigger_threshold=float(thr),
+                                 noisy=cfg["noisy"])
+        else:
+            sysobj = Sys(Antenna)
+            sysobj.setup_antenna((0, 0, -100), noisy=cfg["noisy"], freq_range=(1e8, 2e8), noise_rms=1.0)
+        sysobj.antenna.apply_response = _copy_response
+        return sysobj
     return Sys(mk(cfg["inner"]))
 
 
@@ -139,6 +164,8 @@ def op_s(op):
     k = op[0]
     if k == "R":
         return "R %d" % len(op[1]) + "".join(" %s %s" % (frs(t), frs(v)) for t, v in zip(op[1], op[2]))
+    if k == "R2":      # two polarisation components received in one call: what is stored is their sum
+        return "R %d" % len(op[1]) + "".join(" %s %s" % (frs(t), frs(a + b)) for t, a, b in zip(op[1], op[2], op[3]))
     if k in "FDN":
         return k + " " + grid_s(op[1])
     if k == "C":
@@ -152,7 +179,8 @@ def request(cfg, ops, old=False):
     trig = "A" if cfg["thr"] is None else "T " + frs(cfg["thr"])
     body = "%d " % len(ops) + " ".join(op_s(o) for o in ops)
     if cfg["kind"] == "sys":
-        return "sys %d %s %s %s %s" % (cfg["noisy"], trig, frs(cfg["lead"]), cfg["fe"], body)
+        strig = trig if cfg.get("sthr") is None else "T " + frs(cfg["sthr"])
+        return "sys %d %s %s %s %s %s" % (cfg["noisy"], trig, strig, frs(cfg["lead"]), cfg["fe"], body)
     return "ant %d %d %s %s" % (old, cfg["noisy"], trig, body)
 
 
@@ -160,13 +188,36 @@ def st_s(a):
     return "[%d %d %d %d]" % (len(a.signals), len(a._all_waves), len(a._triggers), a._noise_master is not None)
 
 
+def times_arg(o):
+    """the `times` argument of a query in the container / dtype form recorded with the operation
+    (array_like: float array, list, tuple, integer array)"""
+    np = _mods()[0]
+    form = o[2] if len(o) > 2 else "arr"
+    if form == "list":
+        return [float(t) for t in o[1]]
+    if form == "tuple":
+        return tuple(float(t) for t in o[1])
+    if form == "int" and all(float(t).is_integer() for t in o[1]):
+        return np.array([int(t) for t in o[1]], dtype=np.int64)
+    return np.array(o[1], dtype=float)
+
+
 def apply_op(obj, op, is_sys):
     """run one operation on the real object; returns the output text"""
     np, pyrex, Signal, FunctionSignal = _mods()
     k = op[0]
+    grid = times_arg
     if k == "R":
         obj.receive(Signal(np.array(op[1], dtype=float), np.array(op[2], dtype=float), Signal.Type.voltage))
         return "u"
+    if k == "R2":
+        t = np.array(op[1], dtype=float)
+        obj.receive([Signal(t, np.array(op[2], dtype=float), Signal.Type.voltage),
+                     Signal(t, np.array(op[3], dtype=float), Signal.Type.voltage)],
+                    polarization=[(0, 0, 1), (1, 0, 0)])
+        return "u"
+    if k == "M":
+        return "f %d" % bool(obj.is_hit_mc_truth)
     if k == "A":
         ws = obj.all_waveforms
         return "ws %d" % len(ws) + "".join(" " + wave_s(w) for w in ws)
@@ -179,11 +230,11 @@ def apply_op(obj, op, is_sys):
     if k == "H":
         return "f %d" % bool(obj.is_hit)
     if k == "F":
-        return "w " + wave_s(obj.full_waveform(np.array(op[1], dtype=float)))
+        return "w " + wave_s(obj.full_waveform(grid(op)))
     if k == "D":
-        return "f %d" % bool(obj.is_hit_during(np.array(op[1], dtype=float)))
+        return "f %d" % bool(obj.is_hit_during(grid(op)))
     if k == "N":
-        return "w " + wave_s(obj.make_noise(np.array(op[1], dtype=float)))
+        return "w " + wave_s(obj.make_noise(grid(op)))
     if k == "C":
         obj.clear(reset_noise=bool(op[1]))
         return "u"
@@ -249,25 +300,33 @@ def gen_history(rng, cfg, nmax=20):
     noise_ok = True
     ops, prev = [], []
     n = rng.randint(1, nmax)
+
+    def form():      # container / dtype form of a `times` argument
+        return rng.choice(["arr", "arr", "list", "tuple", "int"])
     for _ in range(n):
         r = rng.random()
         if r < 0.32:
             ts, vs = gen_signal(rng, dt, prev, uniform)
             prev.append(ts)
-            ops.append(("R", ts, vs))
-        elif r < 0.45:
+            if rng.random() < 0.25:      # two polarisation components in one receive call
+                ops.append(("R2", ts, vs, [rng.randint(-8, 8) / 4.0 for _ in ts]))
+            else:
+                ops.append(("R", ts, vs))
+        elif r < 0.44:
             ops.append(("A",))
-        elif r < 0.57:
+        elif r < 0.54:
             ops.append(("W",))
-        elif r < 0.65:
+        elif r < 0.60:
             ops.append(("H",))
+        elif r < 0.66:
+            ops.append(("M",))
         elif r < 0.75:
             ops.append(("F", gen_grid(rng, dt, uniform=uniform) if rng.random() < 0.85
-                        else gen_grid(rng, dt, lo=58, hi=82, uniform=uniform)))
+                        else gen_grid(rng, dt, lo=58, hi=82, uniform=uniform), form()))
         elif r < 0.81:
-            ops.append(("D", gen_grid(rng, dt, uniform=uniform)))
+            ops.append(("D", gen_grid(rng, dt, uniform=uniform), form()))
         elif r < 0.87 and noise_ok:
-            ops.append(("N", gen_grid(rng, dt, uniform=uniform)))
+            ops.append(("N", gen_grid(rng, dt, uniform=uniform), form()))
         elif r < 0.94:
             ops.append(("C", int(rng.random() < 0.5)))
             if rng.random() < 0.7:
@@ -276,7 +335,7 @@ def gen_history(rng, cfg, nmax=20):
             if rng.random() < 0.5:
                 ops.append(("S",))
             else:
-                ops.append(("I", rng.choice([("A",), ("W",), ("H",),
+                ops.append(("I", rng.choice([("A",), ("W",), ("H",), ("M",),
                                              ("F", gen_grid(rng, dt)), ("N", gen_grid(rng, dt))])))
         else:
             ops.append(("A",))
@@ -295,16 +354,18 @@ def gen_cfg(rng):
         if cfg["inner"] == "dip":
             cfg["thr"] = rng.choice([0.5, 1.0, 2.5])
         cfg["lead"] = dt * rng.choice([0, 2.5, 10])
-        cfg["fe"] = rng.choice(["H", "H", "I"])
+        cfg["fe"] = rng.choice(["H", "H", "I", "B", "E"])
+        cfg["sthr"] = rng.choice([None, None, 0.75, 1.5])        # system-level trigger overriding the antenna's
+        cfg["via_class"] = int(rng.random() < 0.3)               # AntennaSystem(cls) + setup_antenna(...)
     return cfg
 
 
 def nontrivial(ops):
     seen_r = False
     for o in ops:
-        if o[0] == "R":
+        if o[0] in ("R", "R2"):
             seen_r = True
-        elif seen_r and o[0] in "AWHFDSI":
+        elif seen_r and o[0] in "AWHFDSIM":
             return True
     return False
 
@@ -524,7 +585,10 @@ def oracle(cfg, ops):
     np, pyrex, Signal, FunctionSignal = _mods()
     is_sys = cfg["kind"] == "sys"
     scale = 0.5 if (is_sys and cfg["fe"] == "H") else 1.0
+    summable = not cfg["noisy"] and (not is_sys or cfg["fe"] in "IH")     # pointwise front ends only
     thr = cfg["thr"]
+    if is_sys and cfg.get("sthr") is not None:
+        thr = cfg["sthr"]                                     # the system's own trigger
     with patched_noise() as ncls:
         obj = build(cfg)
         inner = obj.antenna if is_sys else obj
@@ -533,8 +597,8 @@ def oracle(cfg, ops):
         for i, op in enumerate(ops):
             k = op[0]
             try:
-                if k == "R":
-                    sigs.append((list(op[1]), list(op[2])))
+                if k in ("R", "R2"):
+                    sigs.append((list(op[1]), list(op[2]) if k == "R" else [a + b for a, b in zip(op[2], op[3])]))
                     apply_op(obj, op, is_sys)
                     continue
                 if k == "C":
@@ -549,17 +613,34 @@ def oracle(cfg, ops):
                         return "op %d: cleared antenna still reports hits" % i
                     continue
                 if k == "N":
-                    w = obj.make_noise(np.array(op[1]))
+                    w = obj.make_noise(times_arg(op))
                     if not is_sys:
                         for t, v in zip(op[1], w.values):
                             if noise_seen.setdefault(t, v) != v:
                                 return "op %d: noise changed at the same absolute time without reset" % i
                     continue
-                if k in ("I", "S"):
+                if k == "S":
+                    # independent recomputation: front end applied to the signal on its lead-in grid
+                    # (n = floor(lead/dt)+1 extra samples in front), read off on the signal's own grid
+                    got = obj.signals
+                    if len(got) != len(sigs):
+                        return "op %d: %d processed signals for %d received" % (i, len(got), len(sigs))
+                    for j, (g, (ts, vs)) in enumerate(zip(got, sigs)):
+                        step = ts[1] - ts[0]
+                        n = int(np.floor(cfg["lead"] / step)) + 1
+                        long = [ts[0] - (n - q) * step for q in range(n)] + list(ts)
+                        pre = np.interp(long, ts, vs, left=0, right=0)
+                        fe = cfg["fe"]
+                        post = (pre * 0.5 if fe == "H" else pre - pre[0] if fe == "B"
+                                else pre + 0.5 * np.concatenate(([0.0], pre[:-1])) if fe == "E" else pre)
+                        if list(g.times) != list(ts) or list(g.values) != list(post[n:]):
+                            return "op %d: processed signal %d is not front_end(signal on its lead-in grid)" % (i, j)
+                    continue
+                if k == "I":
                     apply_op(obj, op, is_sys)
                     continue
                 # a fresh object fed the same signals (same noise realisation)
-                if cfg["noisy"] and inner._noise_master is None:
+                if (cfg["noisy"] or k == "M") and inner._noise_master is None:
                     inner.make_noise(np.array([0.0, 1.0]))      # realisation exists before the comparison
                 fresh = build(cfg)
                 finner = fresh.antenna if is_sys else fresh
@@ -584,7 +665,7 @@ def oracle(cfg, ops):
                             return "op %d: waveform %d not on its signal's grid" % (i, j)
                         if list(g.values) != list(r.values):
                             return "op %d: waveform %d differs from a fresh antenna's" % (i, j)
-                        if not cfg["noisy"] and list(g.values) != list(total(s[0])):
+                        if summable and list(g.values) != list(total(s[0])):
                             return "op %d: waveform %d is not the sum of the received signals" % (i, j)
                 elif k == "W":
                     got, ref = obj.waveforms, fresh.waveforms
@@ -601,15 +682,28 @@ def oracle(cfg, ops):
                 elif k in "FD":
                     x = op[1]
                     if k == "F":
-                        g = obj.full_waveform(np.array(x))
-                        r = fresh.full_waveform(np.array(x))
-                        if list(g.times) != list(x) or list(g.values) != list(r.values):
+                        g = obj.full_waveform(times_arg(op))        # list / tuple / int forms must agree with
+                        r = fresh.full_waveform(np.array(x))        # the float-array form on a fresh object
+                        if [float(t) for t in g.times] != list(x) or list(g.values) != list(r.values):
                             return "op %d: full_waveform differs from a fresh antenna's" % i
-                        if not cfg["noisy"] and list(g.values) != list(total(x)):
+                        if summable and list(g.values) != list(total(x)):
                             return "op %d: full_waveform is not the sum of the received signals" % i
                     else:
-                        if bool(obj.is_hit_during(np.array(x))) != bool(fresh.is_hit_during(np.array(x))):
+                        h = bool(obj.is_hit_during(times_arg(op)))
+                        if h != bool(fresh.is_hit_during(np.array(x))):
                             return "op %d: is_hit_during differs from a fresh antenna's" % i
+                        if h != trig(obj.full_waveform(np.array(x)).values):
+                            return "op %d: is_hit_during is not the trigger applied to full_waveform(times)" % i
+                elif k == "M":
+                    h = bool(obj.is_hit_mc_truth)
+                    if is_sys or cfg["noisy"]:
+                        exp = any(trig(w.values) and not trig(obj.make_noise(w.times).values)
+                                  for w in obj.all_waveforms)
+                    else:
+                        exp = bool(obj.is_hit)
+                    if h != bool(fresh.is_hit_mc_truth) or h != exp:
+                        return ("op %d: is_hit_mc_truth is not 'some triggered waveform whose noise alone does not "
+                                "trigger'" % i)
                 if cfg["noisy"] and inner._noise_master is not finner._noise_master:
                     return "op %d: noise master replaced during a query" % i
             except Exception as e:
